@@ -6,15 +6,18 @@
    Every event carries the arguments of one public operation (or "Block": the next block starts with SyncPOS), the
    result the real code gave (ok / revert message / amount / status) and the post-state read through all getters.
    The step itself is the corresponding action of Staker.tla applied to the logged ARGUMENTS only: the specification
-   computes the result and the whole next state by itself.  The comparison is done by invariants on the state reached:
+   computes the result and the whole next state by itself.  The comparison is done on the state reached, by the state
+   constraint Conforms (a state that does not conform is reported with PrintT and not explored further, so the run
+   ends at the first deviation without TLC printing a behaviour of thousands of states):
 
-     Conforms<P>     the result and every logged getter that belongs to property P equals what the specification
-                     computed (P = C16: stake buckets, counters, effectiveVET, balance, delegations, amounts paid;
-                     P = C17: status, periods, exit / offline blocks, weights, both linked lists, leader group,
+     MISMATCH-OWN    the result or a logged getter that belongs to property Prop differs from what the specification
+                     computed (Prop = C16: stake buckets, counters, effectiveVET, balance, delegations, amounts paid;
+                     Prop = C17: status, periods, exit / offline blocks, weights, both linked lists, leader group,
                      exit-block map, PoS status);
-     ConformsOther   the same for the getters of the other property.  When only this one fails the implementation
-                     has left the model for a reason that belongs to the other property; the history is given up
-                     there by this check and reported by the other one.
+     MISMATCH-OTHER  the same for the getters of the other property: the implementation has left the model for a
+                     reason that belongs to the other property; the history is given up there by this check and
+                     reported by the other one;
+     MISMATCH-PROJ   an internal projection (the renewal list) differs while all observables agree: drift (exit 2);
 
    and all design invariants / action properties of Staker.tla listed in the cfg are evaluated at every step of the
    observed execution.  Several histories are concatenated; a Reset event starts the next one.                   *)
